@@ -53,7 +53,15 @@ mod imp {
         pub static QUEUE: RefCell<VecDeque<u64>> = RefCell::new(VecDeque::new());
     }
     fn pop() -> u64 {
-        QUEUE.with(|q| q.borrow_mut().pop_front().expect("KV_REPLAY: ran out of recorded values"))
+        match QUEUE.with(|q| q.borrow_mut().pop_front()) {
+            Some(v) => v,
+            None => {
+                // the solver's trace ends at the failed check: once that check has failed here
+                // too there is nothing left to follow
+                super::stop_if_failed("recorded values end here");
+                panic!("KV_REPLAY: ran out of recorded values")
+            }
+        }
     }
     pub fn any_bool() -> bool {
         pop() != 0
@@ -72,6 +80,7 @@ mod imp {
     }
     pub fn assume(c: bool) {
         if !c {
+            super::stop_if_failed("an assumption placed after the failed check does not hold");
             panic!("KV_REPLAY: assumption violated");
         }
     }
@@ -86,6 +95,51 @@ pub fn replay_load(values: &[u64]) {
         q.clear();
         q.extend(values.iter().copied());
     });
+}
+
+/// Non-assuming assertion.  `kani::assert` asserts AND assumes its condition, so a failing check of
+/// one property would cut every path on which the checks of other properties placed after it could
+/// fail (seeds C02-a, C20-b, C16-b, C01-d were hidden that way).  Here the assumption is weakened by a
+/// fresh nondeterministic bit: the check fails exactly when the condition can be false, and the path
+/// continues either way, so every tagged check is decided independently of the ones before it.
+/// In a native replay a failure is printed (`KV_ASSERT_FAILED: <message>`) and remembered; the run goes
+/// on as far as the recorded values reach and exits 101.
+#[cfg(kani)]
+#[macro_export]
+macro_rules! kv_assert {
+    ($cond:expr, $msg:literal $(,)?) => {{
+        let kv_c: bool = $cond;
+        let kv_go_on: bool = kani::any();
+        kani::assert(kv_c || kv_go_on, $msg);
+    }};
+}
+#[cfg(not(kani))]
+#[macro_export]
+macro_rules! kv_assert {
+    ($cond:expr, $msg:literal $(,)?) => {{
+        if !($cond) {
+            $crate::kv::replay_fail($msg);
+        }
+    }};
+}
+
+#[cfg(not(kani))]
+pub static REPLAY_FAILED: std::sync::atomic::AtomicBool = std::sync::atomic::AtomicBool::new(false);
+#[cfg(not(kani))]
+pub fn replay_fail(msg: &str) {
+    eprintln!("KV_ASSERT_FAILED: {}", msg);
+    REPLAY_FAILED.store(true, std::sync::atomic::Ordering::SeqCst);
+}
+#[cfg(not(kani))]
+pub fn replay_failed() -> bool {
+    REPLAY_FAILED.load(std::sync::atomic::Ordering::SeqCst)
+}
+#[cfg(not(kani))]
+pub fn stop_if_failed(why: &str) {
+    if replay_failed() {
+        eprintln!("KV_REPLAY: stopping after a failed harness assertion ({})", why);
+        std::process::exit(101);
+    }
 }
 
 /// cover witness (vacuity guard); evaluates to nothing in replay builds
@@ -257,10 +311,10 @@ pub(crate) fn t_rotate_stub(len: usize) {
     assume(i < len);
     if any_bool() {
         b[..len].rotate_left(n);
-        assert!(b[i] == a[(i + n) % len], "[KV] rotate stub meets the contract of rotate_left");
+        crate::kv_assert!(b[i] == a[(i + n) % len], "[KV] rotate stub meets the contract of rotate_left");
     } else {
         b[..len].rotate_right(n);
-        assert!(b[(i + n) % len] == a[i], "[KV] rotate stub meets the contract of rotate_right");
+        crate::kv_assert!(b[(i + n) % len] == a[i], "[KV] rotate stub meets the contract of rotate_right");
     }
     crate::kv_end!();
 }
